@@ -22,7 +22,6 @@ Section Spectra.
 
   (* --- what is assumed of scipy's special functions (sign facts only) *)
   Definition gamma_pos_hyp := forall x, 0 < x -> 0 < ora ORA_GAMMA [x].
-  Definition gamma_at_0_hyp := 0 < ora ORA_GAMMA [0].          (* scipy.special.gamma(0) = +inf *)
   Definition gammainc_nonneg_hyp := forall s x, 0 < s -> 0 <= x -> 0 <= ora ORA_INCGAMMA_LOW [s; x].
   Definition hyp2f1_nonneg_hyp :=
     forall a b c x, 0 < a -> 0 < b -> 0 < c -> 0 <= x < 1 -> 0 <= ora ORA_HYP2F1 [a; b; c; x].
@@ -140,12 +139,14 @@ Section Spectra.
       apply Rmult_le_pos; [left; apply div_pos; assumption|apply (sq_nonneg ora)].
   Qed.
 
-  (* --- JBessel: uses the dimension-dependent lower bound nu >= dim/2 - 1 *)
-  Lemma sd_jbessel_core dim ell nu k :
-    0 < ora ORA_GAMMA [nu + 1] -> 0 < ora ORA_GAMMA [nu - IZR dim / 2 + 1] ->
-    0 < ell -> 0 <= k -> 0 <= sd_jbessel O dim ell nu k.
+  (* --- JBessel: uses the dimension-dependent lower bound nu >= dim/2 - 1 (gamma(nu + 1) needs nu + 1 > 0; the
+         divisor is gamma(max(nu - dim/2 + 1, 0.01))) *)
+  Theorem sd_jbessel_nonneg dim ell nu k :
+    gamma_pos_hyp -> (1 <= dim)%Z -> IZR dim / 2 - 1 <= nu -> 0 < ell -> 0 <= k ->
+    0 <= sd_jbessel O dim ell nu k.
   Proof.
-    intros HG1 HG2 Hl Hk. unfold sd_jbessel. rewrite (sq_R ora), (nmin_R ora).
+    intros HG Hd Hn Hl Hk. apply IZR_ge_1 in Hd.
+    unfold sd_jbessel. rewrite (sq_R ora), (nmax_R ora).
     unfold half_dim, gamma, ofZ, two, lit, nlit. simpl.
     unfold Rltb. destruct (Rlt_dec k (1 / ell)) as [Hkl|_]; [|lra].
     assert (Hkl1 : k * ell < 1).
@@ -153,26 +154,9 @@ Section Spectra.
       rewrite Rmult_1_l, Rinv_l in Hkl by lra. exact Hkl. }
     apply Rmult_le_pos.
     - apply div_nonneg.
-      + apply Rmult_le_pos; [left; apply Rpowc_pos, div_pos; [exact Hl|apply sqrt_PI_pos]|left; exact HG1].
-      + apply Rmin_glb_lt; [exact HG2|lra].
+      + apply Rmult_le_pos; [left; apply Rpowc_pos, div_pos; [exact Hl|apply sqrt_PI_pos]|left; apply HG; lra].
+      + apply HG. eapply Rlt_le_trans; [|apply Rmax_r]. lra.
     - left. apply Rpowc_pos. assert (0 <= k * ell) by (apply Rmult_le_pos; lra). nra.
-  Qed.
-
-  Theorem sd_jbessel_nonneg dim ell nu k :
-    gamma_pos_hyp -> (1 <= dim)%Z -> IZR dim / 2 - 1 < nu -> 0 < ell -> 0 <= k ->
-    0 <= sd_jbessel O dim ell nu k.
-  Proof.
-    intros HG Hd Hn Hl Hk. apply IZR_ge_1 in Hd. apply sd_jbessel_core; try assumption; apply HG; lra.
-  Qed.
-
-  (* the bound edge nu = dim/2 - 1, where the code divides by min(gamma(0), 100) = 100 *)
-  Theorem sd_jbessel_nonneg_edge dim ell k :
-    gamma_pos_hyp -> gamma_at_0_hyp -> (1 <= dim)%Z -> 0 < ell -> 0 <= k ->
-    0 <= sd_jbessel O dim ell (IZR dim / 2 - 1) k.
-  Proof.
-    intros HG HG0 Hd Hl Hk. apply IZR_ge_1 in Hd. apply sd_jbessel_core; try assumption.
-    - apply HG. lra.
-    - replace (IZR dim / 2 - 1 - IZR dim / 2 + 1) with 0 by lra. exact HG0.
   Qed.
 
   (* --- TPLExponential, len_low = 0 *)
@@ -406,5 +390,5 @@ End Spectra.
 (* the sign hypotheses are satisfiable (so no theorem above is vacuous): a constant-1 oracle *)
 Example oracle_hypotheses_satisfiable :
   let ora := fun (_ : nat) (_ : list R) => 1 in
-  gamma_pos_hyp ora /\ gamma_at_0_hyp ora /\ gammainc_nonneg_hyp ora /\ hyp2f1_nonneg_hyp ora.
-Proof. simpl. unfold gamma_pos_hyp, gamma_at_0_hyp, gammainc_nonneg_hyp, hyp2f1_nonneg_hyp. repeat split; intros; lra. Qed.
+  gamma_pos_hyp ora /\ gammainc_nonneg_hyp ora /\ hyp2f1_nonneg_hyp ora.
+Proof. simpl. unfold gamma_pos_hyp, gammainc_nonneg_hyp, hyp2f1_nonneg_hyp. repeat split; intros; lra. Qed.
